@@ -202,6 +202,8 @@ def run(ctx) -> None:
             # carries that diagnostic's line, column (1-based), code, file (relative to the working directory) and its message VERBATIM
             gh_viol = 0
             sg = Settings(format="github", quiet=True)
+            sc_one = Settings(quiet=True)
+            sc_one.color = True
             seen_items: set[str] = set()
             for kind, its, _param in [m for m in meta if m[0] == "format" and m[2][0] == "github"]:
                 for it in its:
@@ -222,10 +224,16 @@ def run(ctx) -> None:
                         problems.append("file")
                     if "\n" in out1:
                         problems.append("more than one line")
+                    # ... and so does the plain line (same code spelling, same 1-based column, message verbatim)
+                    if not (plain1.startswith(f"{it['file']}:{it['line']}:{it['col'] + 1} [{it['prefix']}{it['code']}]: ") and plain1.endswith(it["msg"])):
+                        problems.append("plain rendering")
+                    colour1 = sgr.sub("", format_errors(to_errors([it]), sc_one))
+                    if not (colour1.startswith(f"{it['file']}:{it['line']}:{it['col'] + 1} [{it['prefix']}{it['code']}]: ")):
+                        problems.append("coloured rendering")
                     if problems and gh_viol < 3:
                         gh_viol += 1
                         res.violate(
-                            f"the GitHub annotation of a diagnostic does not carry the same {', '.join(problems)} as the plain rendering",
+                            f"the renderings of one diagnostic do not carry the same fields ({', '.join(problems)} differ from the diagnostic's own line / column / code / message)",
                             {"kind": "github-differs-from-plain", "what": problems},
                             {"item": it, "plain": plain1, "github": out1,
                              "how": "build a refurb.error.Error subclass instance with the given prefix/code/line/column/msg/filename and call refurb.main.format_errors([e], Settings(format='github', quiet=True)) and format_errors([e], Settings(quiet=True))"},
